@@ -790,17 +790,17 @@ var M = &run.Monitor{
 			need("path_"+p.name, 10000)
 		}
 		need("path_v1-string-tag", 10000)
-		need("path_marshal-field-name", 1500)
-		need("path_marshal-field-name-multiline", 1500)
+		need("path_marshal-field-name", 1300)
+		need("path_marshal-field-name-multiline", 1300)
 		need("path_marshal-field-name-declared", 8)
 		need("exhaustive_strings_le2", 65793)
 		need("exhaustive_strings_alphabet34", 636608)
-		need("sweep_strings", 50000)
+		need("sweep_strings", 13000)
 		need("sweep_strings_illformed", 10000)
-		need("sweep_strings_with_html_chars", 3000)
+		need("sweep_strings_with_html_chars", 2400)
 		need("sweep_strings_with_u2028_9", 300)
 		need("illformed_without_allow", 10000)
-		need("unquote_literals", 100000)
+		need("unquote_literals", 48000)
 		need("code_points", 0x10000)
 		return u
 	},
